@@ -111,7 +111,7 @@ TRUSTED_BASE = [
 ]
 ASSUMPTIONS = [
     "64-bit words (DoubleWord = u128) in the harness build; the word size is a parameter of the models",
-    "FBig -> f32/f64 for a base that is not a power of two is generated with |exponent| <= 38 (routes of convert_base without logarithm)",
+    "FBig -> f32/f64 for a base that is not a power of two with |exponent| > 38 (ln/exp route of convert_base): the as-is model is C08's (Float/LargeExpAsis.v over C11's Float/ElemAsis.v), evaluated with OCaml single-precision arithmetic for the f32 estimate layer and under a time budget of 2 s per case / 120 s per run",
     "f32/f64 values are identified with their bit patterns; NaN payloads are not distinguished by the library (any NaN is refused)",
 ]
 
@@ -346,6 +346,43 @@ def wide_exp(rng, f, big):
         bases += [1 << 31, 1 << 31, 1 << 32, 1 << 32, (1 << 32) + (1 << 16), 1 << 62, (1 << 63) - (1 << 20)]
     off = rng.choice([-1, 0, 1, 2, -2, rng.range(-150, 150), rng.range(emin - 5, emax + 5), rng.range(emin - 5, emax + 5), emin, emax, emin - 1, emax + 1, 0, 10, -10])
     return rng.choice([1, -1]) * rng.choice(bases) + off
+
+
+def gen_large_route(rng, f, b):
+    """non-binary float with |exponent| > 38: the ln/exp route of convert_base.  Random significands over the range of the format,
+    values next to the overflow and underflow thresholds, and - for negative exponents - significands t * odd(b)^k, i.e. values
+    t * 2^j that ARE floats of the format (the route cannot return them exactly: open class fbig_to_float_large_route)"""
+    p, emin, eb = FMT[f]
+    emax = emin + p - 1 + (1 << eb) - 2
+    import math
+    lg = math.log2(b)
+    kmax = int((emax + 10) / lg)
+    kmin = int((-emin + 10) / lg)
+    kind = rng.below(6)
+    if kind == 0:
+        k = -rng.choice([39, 40, 41, 45, 60, rng.range(39, max(40, kmin))])
+        odd = b
+        v2 = 0
+        while odd % 2 == 0:
+            odd //= 2
+            v2 += 1
+        t = rng.bits(rng.range(1, p)) | 1
+        s = t * odd ** (-k)
+    elif kind == 1:
+        k = rng.choice([kmax, kmax - 1, kmax + 1, -kmin, -kmin + 1, -kmin - 1, kmax + 5, -kmin - 5])
+        s = gen_float_sig(rng, b, rng.choice([1, 3, 17]))
+        if abs(k) <= 38:
+            k = 39 if k > 0 else -39
+    else:
+        k = rng.choice([39, -39, 40, -40, 50, -50, rng.range(39, max(40, kmax)), -rng.range(39, max(40, kmin))])
+        s = gen_float_sig(rng, b, rng.choice([1, 3, 8, 17, 25]))
+    s = abs(s) or 1
+    while s % b == 0:
+        s //= b
+        k += 1
+    if abs(k) <= 38:
+        k = 39 if k >= 0 else -39
+    return (-s if rng.chance(1, 2) else s), k
 
 
 def gen_div_route(rng, f, b):
@@ -605,6 +642,9 @@ def gen_cases(rng, tier, n):
                 lg = 3 if b == 8 else 4
                 p, emin, eb = FMT[f]
                 e = rng.choice([0, 1, -1, rng.range(-5, 5), (emin // lg) + rng.range(-3, 8), ((emin + p + (1 << eb)) // lg) + rng.range(-8, 2), rng.range(-300, 300)])
+                s, e = hx(s), hx(e)
+            elif rng.chance(1, 5):
+                s, e = gen_large_route(rng, f, b)
                 s, e = hx(s), hx(e)
             elif rng.chance(1, 2):
                 s, e = gen_div_route(rng, f, b)
